@@ -10,14 +10,13 @@ static void mkline(struct sstr* l, char tag, const struct sstr* path) {
   l->n = 4 + path->n; l->u.buf[l->n] = 0;
 }
 void harness(void) {
-  struct sstr A, B, l1, l2; sstr_sym(&A, 1, PL); sstr_sym(&B, 1, PL);
+  struct sstr A, B; sstr_sym(&A, 1, PL); sstr_sym(&B, 1, PL);
   for (unsigned i = 0; i < PL; i++) { uint8_t a = A.u.buf[i], b = B.u.buf[i]; if (i < A.n) __CPROVER_assume(a == 'a' || a == 'b' || a == '/'); if (i < B.n) __CPROVER_assume(b == 'a' || b == 'b' || b == '/'); }
   int same = (A.n == B.n); for (unsigned i = 0; i < PL; i++) if (i < A.n && A.u.buf[i] != B.u.buf[i]) same = 0;
   __CPROVER_assume(!same);
-  mkline(&l1, '1', &A); mkline(&l2, '2', &B);
-  int ra = (int)k_lookup((uint8_t*)&l1, (uint8_t*)&l2, (uint8_t*)&A);
+  int ra = (int)k_lookup((uint8_t*)&A, (uint8_t*)&B, (uint8_t*)&A);
   int e1 = __exc_pending; __exc_pending = 0;
-  int rb = (int)k_lookup((uint8_t*)&l1, (uint8_t*)&l2, (uint8_t*)&B);
+  int rb = (int)k_lookup((uint8_t*)&A, (uint8_t*)&B, (uint8_t*)&B);
   H_OUT("ra", ra); H_OUT("rb", rb);
   H_ASSERT(!e1 && !__exc_pending, "no exception");
   H_ASSERT(ra == '1', "the first file finds its own cache entry");
